@@ -186,7 +186,33 @@ def check_descriptions(ctx):
     _import(ctx, sub, "C11.6", "C12.5")
 
 
+MIN_DESCRIPTOR_DIGITS = 10
+
+
+def check_descriptor_precision(ctx):
+    """The leading fields of a row identify the slice: a location id, a coordinate or a threshold must come out with all its digits.
+    Every float conversion (%g/%f/%e, format specs) of an element of the row-descriptor table must keep at least 10 significant
+    digits (str() and %s keep everything; %g alone keeps 6 and prints 1001234 as 1.00123e+06, the same as 1001232)."""
+    from . import c19
+    prog = ctx.prog
+    users, found = c19.descriptor_conversions(prog)
+    ctx.need(users >= 2, "fewer than 2 users of get_axis_descriptions found (confirmed: Output.text, Output.csv)")
+    n = 0
+    for qual, m, node, what, conv, prec, guarded in found:
+        if conv not in ("g", "G", "f", "F", "e", "E"):
+            continue
+        n += 1
+        ok = prec is not None and prec >= MIN_DESCRIPTOR_DIGITS
+        ctx.ob("C12.6", qual, ok, "row descriptors are written with at least %d significant digits (%s)" % (MIN_DESCRIPTOR_DIGITS, what), loc=prog.loc(m, node),
+               msg="%s keeps only %s significant digits of a location id / coordinate / threshold: different slices are printed with the same "
+                   "leading fields (1001232 and 1001234 both as 1.00123e+06)" % (what, prec if prec is not None else 6),
+               sample={"rule": "C12.6", "function": qual, "conversion": what, "precision": prec})
+    ctx.sample({"rule": "C12.6", "functions_using_descriptors": users, "float_conversions": n})
+
+
 def run(ctx):
+    ctx.rule("C12.6", "row descriptors keep their digits: float conversions of descriptor elements have >= 10 significant digits")
+    check_descriptor_precision(ctx)
     ctx.rule("C12.1", "table index discipline: column f <- compute(data, f, ...), headers = legend, row/column loop indices")
     ctx.rule("C12.2", "precision: %g for csv, .4g for text")
     ctx.rule("C12.3", "-f writes the same string that would be printed")
@@ -195,6 +221,13 @@ def run(ctx):
     check_table(ctx)
     check_writers(ctx)
     check_descriptions(ctx)
+    # the table itself, by value (shared with C16.6): column f <- metric of input f, average over ALL -r intervals for every metric on a
+    # data axis, undefined scores stay undefined
+    from . import c16
+    from .c04 import _import
+    sub = type(ctx)(ctx.prog, "C16", ctx.tier, True)
+    c16.check_standard_xy(sub)
+    _import(ctx, sub, "C16.6", "C12.4")
     ctx.floor("C12.5", 14)
 
 
